@@ -338,7 +338,10 @@ class DSession:
             self.extra.append(obj)
             if hasattr(obj, "features"):
                 actual = sorted(getattr(k, "value", str(k)) for k in obj.features)
-        self._ev({"a": "CreateObs", "t": t, "fts": actual, "out": out})
+        self._ev({"a": "CreateObs", "t": t, "fts": actual, "out": out,
+                  # constructed with the default subscribe=True: the object itself is among the subscribers
+                  "subscribed": bool(out != "ok" or kw.get("subscribe", True) is False
+                                     or any(x is obj for x in d.subscribers))})
         return out
 
     def create_graph_updater(self, builder, rm_machines=True, rm_jobs=True):
@@ -356,7 +359,8 @@ class DSession:
         if out == "ok":
             self.extra.append(obj)
         self._ev({"a": "CreateObs", "t": "ResidualGraphUpdater", "fts": [], "out": out, "builder": builder,
-                  "rm_machines": bool(rm_machines), "rm_jobs": bool(rm_jobs)})
+                  "rm_machines": bool(rm_machines), "rm_jobs": bool(rm_jobs),
+                  "subscribed": bool(out != "ok" or any(x is obj for x in d.subscribers))})
         return out
 
     _earlier_graph = {}     # builder -> [graph object, node projection, edge projection] of the latest graph built by ANY session
